@@ -11,10 +11,16 @@ matches without advancing `state.line`) it spins forever — the model returns
 -/
 namespace MdIt
 
-/-- what the loop reads of a line: `isEmpty(line)` and `sCount[line]` -/
+/-- one line of the line tables.  The loop reads `isEmpty(line)` and `sCount[line]`; the modelled rules
+    (`MdIt/BlockRules.lean`) also read the line's characters `src[bMarks[line] : eMarks[line]]`, `tShift`,
+    `bsCount` and whether a line feed follows `eMarks[line]` -/
 structure BLine where
   empty : Bool
   sCount : Int
+  text : List Char := []
+  tShift : Nat := 0
+  bs : Nat := 0
+  hasLF : Bool := true
 deriving Repr, DecidableEq
 
 structure BState where
@@ -106,19 +112,41 @@ real rules by the harness, proved for the rules modelled in `MdIt/Block/Rules`) 
 def BState.FrameEq (s s' : BState) : Prop :=
   s'.lines = s.lines ∧ s'.lineMax = s.lineMax ∧ s'.blkIndent = s.blkIndent ∧ s'.level = s.level
 
-structure RuleOK (r : BRule) : Prop where
-  /-- K1: never raises (non-silent call from the loop) -/
-  total : ∀ s line endLine, ∃ m s', r s line endLine false = .ok (m, s')
-  /-- K3: a match advances `state.line` past the start line, not beyond the end line -/
-  progress : ∀ s line endLine s', r s line endLine false = .ok (true, s') → line < s'.line ∧ s'.line ≤ endLine
-  /-- K2 (the part the loop needs): a miss leaves `state.line` alone -/
-  miss : ∀ s line endLine s', r s line endLine false = .ok (false, s') → s'.line = s.line
-  /-- K4: line tables, lineMax, blkIndent and level are restored on return -/
-  frame : ∀ s line endLine m s', r s line endLine false = .ok (m, s') → s.FrameEq s'
+/-- what every call made by the loop guarantees to the rule: the line tables carry their sentinel entry,
+    `line` is a non-empty, not outdented line inside the range, the range ends inside the tables, and the
+    caller-specific condition `P` on the frame and the range end holds (e.g. `endLine = lineMax`, which
+    is what the top-level call and a terminated block quote give the `paragraph` rule) -/
+structure CallCtx (P : BState → Nat → Prop) (s : BState) (line endLine : Nat) : Prop where
+  len : s.lines.length = s.lineMax + 1
+  lt : line < endLine
+  le : endLine ≤ s.lineMax
+  here : ∃ l, s.lines[line]? = some l ∧ l.empty = false ∧ s.blkIndent ≤ l.sCount
+  extra : P s endLine
 
-/-- the fallback rule: matches on every non-empty line that is not outdented -/
-def AlwaysMatches (r : BRule) : Prop :=
-  ∀ s line endLine l, s.lines[line]? = some l → l.empty = false → line < endLine →
-    ∃ s', r s line endLine false = .ok (true, s')
+/-- `P` reads only the frame fields -/
+def FrameClosed (P : BState → Nat → Prop) : Prop :=
+  ∀ s s' e, s.FrameEq s' → P s e → P s' e
+
+theorem CallCtx.transfer {P : BState → Nat → Prop} (hP : FrameClosed P) {s s' : BState} {line endLine : Nat}
+    (h : CallCtx P s line endLine) (hf : s.FrameEq s') : CallCtx P s' line endLine :=
+  ⟨by rw [hf.1, hf.2.1]; exact h.len, h.lt, by rw [hf.2.1]; exact h.le,
+   by obtain ⟨l, h1, h2, h3⟩ := h.here; exact ⟨l, by rw [hf.1]; exact h1, h2, by rw [hf.2.2.1]; exact h3⟩,
+   hP _ _ _ hf h.extra⟩
+
+/-- the contract of a rule, for the calls the loop makes (K1–K4) -/
+structure RuleOK (P : BState → Nat → Prop) (r : BRule) : Prop where
+  /-- K1: never raises (non-silent call from the loop) -/
+  total : ∀ s line endLine, CallCtx P s line endLine → ∃ m s', r s line endLine false = .ok (m, s')
+  /-- K3: a match advances `state.line` past the start line, not beyond the end line -/
+  progress : ∀ s line endLine s', CallCtx P s line endLine → r s line endLine false = .ok (true, s') →
+    line < s'.line ∧ s'.line ≤ endLine
+  /-- K2 (the part the loop needs): a miss leaves `state.line` alone -/
+  miss : ∀ s line endLine s', CallCtx P s line endLine → r s line endLine false = .ok (false, s') → s'.line = s.line
+  /-- K4: line tables, lineMax, blkIndent and level are restored on return -/
+  frame : ∀ s line endLine m s', CallCtx P s line endLine → r s line endLine false = .ok (m, s') → s.FrameEq s'
+
+/-- the fallback rule: matches on every call the loop makes -/
+def AlwaysMatches (P : BState → Nat → Prop) (r : BRule) : Prop :=
+  ∀ s line endLine, CallCtx P s line endLine → ∃ s', r s line endLine false = .ok (true, s')
 
 end MdIt
